@@ -49,6 +49,14 @@ type compiler struct {
 	types   map[string]string // local name -> "Z" | "string" | "bool" | "Q" | ...
 	consts  map[string]string // package-level constants usable in expressions (name -> gallina)
 	ignored func(ast.Stmt) bool
+	// funcs: package-level functions whose calls are translated by executing their body in place (pure helpers extracted
+	// by a refactoring); plainRet: inside such a body a return statement yields the value of its operand
+	funcs    map[string]*ast.FuncDecl
+	plainRet bool
+	depth    int
+	// pkgVars: package-level variables with an initialiser (read-only tables); pkgConsts: package constants
+	pkgVars   map[string]ast.Expr
+	pkgConsts map[string]ast.Expr
 }
 
 func (c *compiler) fail(n ast.Node, f string, a ...interface{}) {
@@ -67,6 +75,12 @@ func (c *compiler) stmts(list []ast.Stmt) string {
 	}
 	switch s := s.(type) {
 	case *ast.ReturnStmt:
+		if c.plainRet {
+			if len(s.Results) != 1 {
+				c.fail(s, "helper with other than one result")
+			}
+			return c.expr(s.Results[0])
+		}
 		return c.d.ret(c, s.Results)
 	case *ast.AssignStmt:
 		if len(s.Lhs) != 1 || len(s.Rhs) != 1 {
@@ -77,6 +91,13 @@ func (c *compiler) stmts(list []ast.Stmt) string {
 			c.fail(s, "unsupported assignment target")
 		}
 		rhs := c.expr(s.Rhs[0])
+		if s.Tok == token.DEFINE {
+			if _, known := c.types[id.Name]; !known {
+				if t := c.typeOf(s.Rhs[0]); t != "" {
+					c.types[id.Name] = t
+				}
+			}
+		}
 		r := c.stmts(rest)
 		if r == "" {
 			c.fail(s, "assignment at end of function body")
@@ -90,6 +111,15 @@ func (c *compiler) stmts(list []ast.Stmt) string {
 		if s.Init != nil {
 			cc, ok := c.d.ifInit(c, s)
 			if !ok {
+				// `if x := e; cond { ... }`: the same as `x := e` followed by the if (x is not used afterwards under
+				// that name: Go scopes it to the if)
+				if a, isA := s.Init.(*ast.AssignStmt); isA && a.Tok == token.DEFINE && len(a.Lhs) == 1 && len(a.Rhs) == 1 {
+					if _, isId := a.Lhs[0].(*ast.Ident); isId {
+						plain := *s
+						plain.Init = nil
+						return c.stmts(append([]ast.Stmt{a, &plain}, rest...))
+					}
+				}
 				c.fail(s, "unsupported if-with-init")
 			}
 			cond = cc
@@ -170,6 +200,9 @@ func (c *compiler) stmtsK(list []ast.Stmt, k string) string {
 	s := list[0]
 	switch s := s.(type) {
 	case *ast.ReturnStmt:
+		if c.plainRet {
+			return c.expr(s.Results[0])
+		}
 		return c.d.ret(c, s.Results)
 	case *ast.AssignStmt:
 		id, ok := s.Lhs[0].(*ast.Ident)
@@ -242,6 +275,9 @@ func (c *compiler) typeOf(e ast.Expr) string {
 		}
 		if e.Name == "true" || e.Name == "false" {
 			return "bool"
+		}
+		if v, ok := c.pkgConsts[e.Name]; ok {
+			return c.typeOf(v)
 		}
 	case *ast.ParenExpr:
 		return c.typeOf(e.X)
@@ -322,6 +358,16 @@ func (c *compiler) expr(e ast.Expr) string {
 		if _, ok := c.types[e.Name]; ok {
 			return e.Name
 		}
+		// a package-level table or constant: its initialiser
+		if v, ok := c.pkgVars[e.Name]; ok {
+			if _, isLit := v.(*ast.CompositeLit); isLit {
+				c.types[e.Name+"#pkg"] = "list string"
+			}
+			return c.expr(v)
+		}
+		if v, ok := c.pkgConsts[e.Name]; ok {
+			return c.expr(v)
+		}
 	case *ast.UnaryExpr:
 		if e.Op == token.NOT {
 			return "(negb " + c.expr(e.X) + ")"
@@ -399,7 +445,85 @@ func (c *compiler) expr(e ast.Expr) string {
 		}
 		c.fail(e, "unsupported binary expression (%s, operand type %q)", e.Op, t)
 	}
+	if call, ok := e.(*ast.CallExpr); ok {
+		if id, ok := call.Fun.(*ast.Ident); ok {
+			if fd, ok := c.funcs[id.Name]; ok && fd.Body != nil && fd.Recv == nil && c.depth < 3 {
+				return c.inlineCall(fd, call)
+			}
+		}
+	}
 	c.fail(e, "unsupported expression %T", e)
+	return ""
+}
+
+// inlineCall executes the body of a pure package-level helper in place: its parameters are bound to the arguments, a
+// return statement yields its operand.
+func (c *compiler) inlineCall(fd *ast.FuncDecl, call *ast.CallExpr) string {
+	var names []string
+	var ptypes []string
+	if fd.Type.Params != nil {
+		for _, prm := range fd.Type.Params.List {
+			for _, nm := range prm.Names {
+				names = append(names, nm.Name)
+				ptypes = append(ptypes, exprText(prm.Type))
+			}
+		}
+	}
+	if len(names) != len(call.Args) || fd.Type.Results == nil || len(fd.Type.Results.List) != 1 {
+		c.fail(call, "helper %s: unsupported signature", fd.Name.Name)
+	}
+	// every argument is passed under the parameter's own name: the dialects recognise parameters by name
+	var lets []string
+	for i, a := range call.Args {
+		if id, ok := a.(*ast.Ident); ok && id.Name == names[i] {
+			continue
+		}
+		lets = append(lets, fmt.Sprintf("let %s := %s in ", names[i], c.expr(a)))
+		if _, known := c.types[names[i]]; !known {
+			t := c.typeOf(a)
+			if t == "" {
+				switch ptypes[i] {
+				case "float64":
+					t = "Q"
+				case "int", "int64", "time.Duration":
+					t = "Z"
+				case "string":
+					t = "string"
+				case "bool":
+					t = "bool"
+				case "[]string":
+					t = "list"
+				}
+			}
+			if t != "" {
+				c.types[names[i]] = t
+			}
+		}
+	}
+	sub := *c
+	sub.plainRet = true
+	sub.depth = c.depth + 1
+	// locals of the helper take their types from their initialisers
+	body := sub.stmts(fd.Body.List)
+	c.kcount = sub.kcount
+	if body == "" {
+		c.fail(call, "helper %s falls off its end", fd.Name.Name)
+	}
+	c.types["call:"+fd.Name.Name] = c.resultType(fd)
+	return "(" + strings.Join(lets, "") + body + ")"
+}
+
+func (c *compiler) resultType(fd *ast.FuncDecl) string {
+	switch exprText(fd.Type.Results.List[0].Type) {
+	case "float64":
+		return "Q"
+	case "int", "int64", "time.Duration":
+		return "Z"
+	case "string":
+		return "string"
+	case "bool":
+		return "bool"
+	}
 	return ""
 }
 
